@@ -288,11 +288,19 @@ func TestDeterministicAcrossConfigurations(t *testing.T) {
 				parts = append(parts, sdf.Transform2D(part, sdf.Translate2d(v2.Vec{X: 3, Y: y})), sdf.Transform2D(part, sdf.Translate2d(v2.Vec{X: 3 + pitch, Y: y + pitch/2})))
 			}
 			var model sdf.SDF3
-			how := rapid.SampledFrom([]string{"extrude", "extrude", "revolve"}).Draw(t, "how")
-			if how == "extrude" {
+			how := rapid.SampledFrom([]string{"extrude", "extrude", "revolve", "plate"}).Draw(t, "how")
+			switch how {
+			case "extrude":
 				model = sdf.Extrude3D(sdf.Union2D(parts...), 0.5)
-			} else {
+			case "revolve":
 				model, _ = sdf.Revolve3D(sdf.Union2D(parts...))
+			default:
+				// a plate that is wide in y and z and thin in x: few lattice layers, each of more than ten
+				// thousand samples (the uniform renderer's batch queue runs full within one layer)
+				side := g.F(20, 40).Draw(t, "plate-side")
+				pl, _ := sdf.Box3D(v3.Vec{X: side * g.F(0.04, 0.1).Draw(t, "plate-thickness"), Y: side, Z: side * g.F(0.8, 1).Draw(t, "plate-zy")}, 0.3)
+				hole, _ := sdf.Cylinder3D(side, side/7, 0)
+				model = sdf.Difference3D(pl, sdf.Transform3D(hole, sdf.RotateY(math.Pi/2)))
 			}
 			n = &shape.Node{Op: "sphere", P: []float64{float64(np), pitch}} // stands for the description only
 			rname = rapid.SampledFrom([]string{"mcu", "mcu", "mco"}).Draw(t, "many-renderer")
@@ -301,7 +309,11 @@ func TestDeterministicAcrossConfigurations(t *testing.T) {
 			if how == "revolve" {
 				cells = rapid.IntRange(40, ev.Pick(90, 160)).Draw(t, "fine-cells-revolve")
 			}
-			if rname == "mco" {
+			if how == "plate" {
+				rname = "mcu"
+				cells = rapid.IntRange(110, ev.Pick(170, 260)).Draw(t, "plate-cells")
+			}
+			if rname == "mco" && how != "plate" {
 				// deep octrees (9..10 levels): the strip is sparse, most cubes are pruned
 				cells = rapid.IntRange(100, ev.Pick(300, 600)).Draw(t, "deep-octree-cells")
 				if how == "revolve" {
